@@ -271,17 +271,40 @@ fn opt_codes_from(v: &Value) -> Vec<OPTCode<'static>> {
     v.as_array().unwrap().iter().map(|c| OPTCode { code: c[0].as_u64().unwrap() as u16, data: json_bytes(&c[1]).into() }).collect()
 }
 
+/// the enum values are written down here, not obtained from the crate's own code conversions (which are under
+/// test themselves: a conversion that refuses a supported code must show in the packets, not stop the harness)
+fn class_of(c: u16) -> Result<CLASS, String> {
+    Ok(match c {
+        1 => CLASS::IN,
+        2 => CLASS::CS,
+        3 => CLASS::CH,
+        4 => CLASS::HS,
+        254 => CLASS::NONE,
+        x => return Err(format!("class {x} outside the specification's domain")),
+    })
+}
+
 pub fn construct_rr(v: &Value) -> Result<ResourceRecord<'static>, String> {
     let code = v["type"].as_u64().unwrap() as u16;
-    let class = CLASS::try_from(v["class"].as_u64().unwrap() as u16).map_err(|e| format!("class: {e}"))?;
+    let class = class_of(v["class"].as_u64().unwrap() as u16)?;
     let ttl = u32_of(&v["ttl"]);
     let rdata = construct_rdata(code, &v["rd"])?;
     Ok(ResourceRecord::new(name_from(&v["name"]), class, ttl, rdata).with_cache_flush(v["cf"].as_bool().unwrap()))
 }
 
 pub fn construct_question(v: &Value) -> Result<Question<'static>, String> {
-    let qt = QTYPE::try_from(v["qtype"].as_u64().unwrap() as u16).map_err(|e| format!("qtype: {e}"))?;
-    let qc = QCLASS::try_from(v["qclass"].as_u64().unwrap() as u16).map_err(|e| format!("qclass: {e}"))?;
+    let qt = match v["qtype"].as_u64().unwrap() as u16 {
+        251 => QTYPE::IXFR,
+        252 => QTYPE::AXFR,
+        253 => QTYPE::MAILB,
+        254 => QTYPE::MAILA,
+        255 => QTYPE::ANY,
+        c => QTYPE::TYPE(TYPE::from(c)),
+    };
+    let qc = match v["qclass"].as_u64().unwrap() as u16 {
+        255 => QCLASS::ANY,
+        c => QCLASS::CLASS(class_of(c)?),
+    };
     Ok(Question::new(name_from(&v["name"]), qt, qc, v["unicast"].as_bool().unwrap()))
 }
 
